@@ -255,3 +255,128 @@ Example C14_ex_lex_string : forall un ua,
   lex un ua (spell_string 1 [97] ++ 43 :: spell_string 1 [98]) =
     Ok [mkTok [34; 97; 34] TT_CharList 0 0; mkTok [43] TT_PlusSign 0 3; mkTok [34; 98; 34] TT_CharList 0 4].
 Proof. intros un ua. vm_compute. repeat split; reflexivity. Qed.
+
+(* ---- byte lists ---- *)
+From GV Require Import Proofs.C14.LexSpellingNum.
+
+(* The text spelling of a byte vector lexes to exactly one ByteList token whose
+   text is the whole spelling, for every vector that does not contain the
+   apostrophe byte 39 (its spelling, backslash apostrophe, ends the literal for
+   the lexer: see C14_lex_bytes_text_apostrophe_refuted) ... *)
+Theorem C14_lex_bytes_text : forall un ua bs, ~ In 39 bs ->
+  lex un ua (spell_bytes_text bs) = Ok [mkTok (spell_bytes_text bs) TT_ByteList 0 0].
+Proof. exact lex_bytes_text. Qed.
+Print Assumptions C14_lex_bytes_text.
+
+(* ... and the numeric spelling with three or more quotes on each side does so
+   for every non-empty vector *)
+Theorem C14_lex_bytes : forall un ua q bs, 3 <= q -> bs <> [] ->
+  lex un ua (spell_bytes q bs) = Ok [mkTok (spell_bytes q bs) TT_ByteList 0 0].
+Proof. exact lex_bytes. Qed.
+Print Assumptions C14_lex_bytes.
+
+(* lexing and then parsing the token's text yields the bytes *)
+Theorem C14_bytes_text_end_to_end : forall un ua pf un' bs, Forall (fun b => b < 256) bs -> ~ In 39 bs ->
+  exists t, lex un ua (spell_bytes_text bs) = Ok [t] /\ tok_type t = TT_ByteList /\
+            parse_byte_list pf un' (tok_text t) = Ok bs.
+Proof. exact bytes_text_end_to_end. Qed.
+Print Assumptions C14_bytes_text_end_to_end.
+
+Theorem C14_bytes_end_to_end : forall un ua pf un' q bs, 3 <= q -> bs <> [] -> Forall (fun b => b <= 255) bs ->
+  exists t, lex un ua (spell_bytes q bs) = Ok [t] /\ tok_type t = TT_ByteList /\
+            parse_byte_list pf un' (tok_text t) = Ok bs.
+Proof. exact bytes_end_to_end. Qed.
+Print Assumptions C14_bytes_end_to_end.
+
+(* followed by any input: the first token is the literal *)
+Theorem C14_lex_bytes_text_then : forall un ua bs rest ts, bs <> [] -> ~ In 39 bs ->
+  lex un ua (spell_bytes_text bs ++ rest) = Ok ts ->
+  exists ts', ts = mkTok (spell_bytes_text bs) TT_ByteList 0 0 :: ts'.
+Proof. exact lex_bytes_text_then. Qed.
+Print Assumptions C14_lex_bytes_text_then.
+
+Theorem C14_lex_bytes_then : forall un ua q bs rest ts, 3 <= q -> bs <> [] ->
+  lex un ua (spell_bytes q bs ++ rest) = Ok ts ->
+  exists ts', ts = mkTok (spell_bytes q bs) TT_ByteList 0 0 :: ts'.
+Proof. exact lex_bytes_then. Qed.
+Print Assumptions C14_lex_bytes_then.
+
+(* Byte-list spellings that parse_byte_list accepts (C14_bytes_text, C14_bytes)
+   but the lexer does not deliver as one token: the escaped apostrophe, the
+   two-quote numeric form, and the empty vector in the numeric form. *)
+Theorem C14_lex_bytes_text_apostrophe_refuted : forall un ua,
+  lex un ua (spell_bytes_text [39]) = Err E_Unterminated.
+Proof. exact lex_bytes_text_apostrophe_refuted. Qed.
+Print Assumptions C14_lex_bytes_text_apostrophe_refuted.
+
+Theorem C14_lex_bytes_two_quotes_refuted : forall un ua,
+  lex un ua (spell_bytes 2 [7]) =
+  Ok [mkTok [39; 39] TT_ByteList 0 0; mkTok [55] TT_Number 0 2; mkTok [39; 39] TT_ByteList 0 3].
+Proof. exact lex_bytes_two_quotes_refuted. Qed.
+Print Assumptions C14_lex_bytes_two_quotes_refuted.
+
+Theorem C14_lex_bytes_empty_refuted : forall un ua, lex un ua (spell_bytes 2 []) = Err E_Unterminated.
+Proof. exact lex_bytes_empty_refuted. Qed.
+Print Assumptions C14_lex_bytes_empty_refuted.
+
+(* ---- numbers ----
+   The lexer has no Float token type: integer and float spellings both lex to
+   one token of type Number (the parser of the text decides). *)
+
+(* 0R_digits, for any digits / letters / separators after the prefix *)
+Theorem C14_lex_radix : forall un ua R ds, forallb num_char ds = true ->
+  lex un ua (spell_radix R ds) = Ok [mkTok (spell_radix R ds) TT_Number 0 0].
+Proof. exact lex_spell_radix. Qed.
+Print Assumptions C14_lex_radix.
+
+Theorem C14_lex_int : forall un ua R n, 2 <= R -> R <= 36 ->
+  lex un ua (spell_int R n) = Ok [mkTok (spell_int R n) TT_Number 0 0].
+Proof. exact lex_spell_int. Qed.
+Print Assumptions C14_lex_int.
+
+Theorem C14_lex_decimal : forall un ua n,
+  lex un ua (dec_string n) = Ok [mkTok (dec_string n) TT_Number 0 0].
+Proof. exact lex_dec_string. Qed.
+Print Assumptions C14_lex_decimal.
+
+(* the decimal-fraction spelling of a finite binary64: one token (type Number) *)
+Theorem C14_lex_float : forall un ua m e,
+  lex un ua (spell_dyadic m e) = Ok [mkTok (spell_dyadic m e) TT_Number 0 0].
+Proof. exact lex_spell_dyadic. Qed.
+Print Assumptions C14_lex_float.
+
+(* the shapes behind these: a digit, then digits / ASCII letters / underscores,
+   optionally one period and more of the same *)
+Theorem C14_lex_number_text : forall un ua d ds fs, ascii_digit d = true -> forallb num_char ds = true ->
+  forallb num_char fs = true ->
+  lex un ua (d :: ds) = Ok [mkTok (d :: ds) TT_Number 0 0] /\
+  lex un ua (d :: ds ++ 46 :: fs) = Ok [mkTok (d :: ds ++ 46 :: fs) TT_Number 0 0].
+Proof. intros un ua d ds fs Hd Hds Hfs. split; [exact (lex_number_text un ua d ds Hd Hds) | exact (lex_float_text un ua d ds fs Hd Hds Hfs)]. Qed.
+Print Assumptions C14_lex_number_text.
+
+(* lexing and then parse_simple_number on the token's text *)
+Theorem C14_int_end_to_end : forall un ua pf R n, 2 <= R -> R <= 36 -> n <= i32_max_N ->
+  exists t, lex un ua (spell_int R n) = Ok [t] /\ tok_type t = TT_Number /\
+            parse_simple_number pf (tok_text t) = Ok (Int (Z.of_N n)).
+Proof. exact int_end_to_end. Qed.
+Print Assumptions C14_int_end_to_end.
+
+Theorem C14_decimal_end_to_end : forall un ua pf n, n <= i32_max_N ->
+  exists t, lex un ua (dec_string n) = Ok [t] /\ tok_type t = TT_Number /\
+            parse_simple_number pf (tok_text t) = Ok (Int (Z.of_N n)).
+Proof. exact decimal_end_to_end. Qed.
+Print Assumptions C14_decimal_end_to_end.
+
+Theorem C14_float_end_to_end : forall un ua m e (H : SpecFloat.bounded 53 1024 m e = true),
+  exists t, lex un ua (spell_dyadic m e) = Ok [t] /\ tok_type t = TT_Number /\
+            parse_simple_number parse_f64 (tok_text t) = Ok (Flt (Binary.B754_finite 53 1024 false m e H)).
+Proof. exact float_end_to_end. Qed.
+Print Assumptions C14_float_end_to_end.
+
+Example C14_ex_lex_numbers : forall un ua,
+  lex un ua (spell_int 36 2147483647) = Ok [mkTok (spell_int 36 2147483647) TT_Number 0 0] /\
+  lex un ua [48; 49; 54; 95; 70; 95; 102] = Ok [mkTok [48; 49; 54; 95; 70; 95; 102] TT_Number 0 0] /\
+  lex un ua (spell_dyadic 5 (-3)) = Ok [mkTok [48; 46; 54; 50; 53] TT_Number 0 0] /\     (* 0.625 *)
+  lex un ua (spell_bytes_text [0; 92; 255]) = Ok [mkTok (spell_bytes_text [0; 92; 255]) TT_ByteList 0 0] /\
+  lex un ua (spell_bytes 3 [0; 39; 255]) = Ok [mkTok (spell_bytes 3 [0; 39; 255]) TT_ByteList 0 0].
+Proof. intros un ua. vm_compute. repeat split; reflexivity. Qed.
